@@ -156,6 +156,15 @@ def check_array_dunders(repo: Repo, rep: Report, w: World) -> None:
                         continue
                     names = {"a0": kind, "a1": kind, **extra}
                     bad = None
+                    # the elements are expressions of the result's kind (an ADD node built as a BoolExpr denotes the sum, but is the
+                    # wrong Python class: the next operator applied to it is looked up on the wrong type)
+                    wrong_cls = [e.attrs.get("__class__") for e in res.attrs["data"] if isinstance(e, Obj)
+                                 and e.attrs.get("__class__") not in (("BoolExpr", "BoolVar") if res_kind == "b" else ("IntExpr", "IntVar"))]
+                    if wrong_cls:
+                        rep.finding("OPC-6A", ARRAY, q, f"{q} {label} element class",
+                                    f"the result's elements are {wrong_cls[0]} objects; a {'boolean' if res_kind == 'b' else 'integer'}-valued array holds "
+                                    f"{'BoolExpr' if res_kind == 'b' else 'IntExpr'} elements", fn.lineno)
+                        continue
                     for val in valuations(names, order):
                         for i in range(2):
                             sv = val[f"a{i}"]
@@ -205,6 +214,25 @@ def check_array_dunders(repo: Repo, rep: Report, w: World) -> None:
                     else:
                         rep.finding("TYP", ARRAY, q, f"{q} accepts {label}",
                                     f"{label} operand is accepted ({kindr}: {_brief(res)})", fn.lineno)
+                except Undecided as ex:
+                    rep.undecide("TYP", f"{q} {label}: {ex}")
+            # the same rejections when the receiver is EMPTY (a[0:0], the vertical-pair slice of a one-row board): there is no element to
+            # trip over, the check has to be made on the operands themselves
+            eshape = (0,) if dims == 1 else (0, 2)
+            A0 = w.array(kind, "a", eshape)
+            ebads = [
+                ("wrong-kind scalar, empty receiver", w.leaf(wrong, "x")),
+                ("wrong-kind array, empty receiver", w.array(wrong, "x", eshape)),
+                ("wrong-kind literal, empty receiver", (3 if kind == "b" else True)),
+                ("shape mismatch, empty receiver", w.array(kind, "m", (3,) if dims == 1 else (0, 3))),
+            ]
+            for label, arg in ebads:
+                try:
+                    kindr, res = _try(w, lambda: w.cw.method(A0, name)(arg))
+                    if (kindr == "value" and res is fde.NOTIMPL) or (kindr == "raised" and res in ("TypeError", "ValueError")):
+                        rep.ok("TYP", f"{q} rejects {label}", nontrivial=False)
+                    else:
+                        rep.finding("TYP", ARRAY, q, f"{q} accepts {label}", f"{label}: operand is accepted ({kindr}: {_brief(res)})", fn.lineno)
                 except Undecided as ex:
                     rep.undecide("TYP", f"{q} {label}: {ex}")
     # then / cond on arrays (methods and module functions)
